@@ -24,9 +24,9 @@ RULE = ("grid: base pointers of depth <= 2 (quick) / <= 3 (thorough) complete ov
 TRUSTED = ["Lean 4.33 kernel; standard axioms only", "model JP/RelPointer.lean tied to pointer.py by this differential run"]
 ASSUMPTIONS = ["no backslashes (escape decoding is abstract)", "suffix pointers without trailing blanks"]
 
-BASE_TOKENS = ["a", "0", "2", "10", "é", "a/b", "~"]
+BASE_TOKENS = ["a", "0", "2", "10", "é", "a/b", "~", "50%25"]
 OFFSETS = [0, 1, -1, 2, -2, 10, -10, 12, -12]
-SUFFIXES = [(False, []), (True, []), (False, ["x"]), (False, ["a/b"]), (False, ["é"]), (False, ["0"]), (False, ["~", ""]), (False, ["x\ny", "z"]), (False, ["a\n", "\tb"])]      # blanks at the very ends of the suffix are stripped by the parser (documented leniency, outside the property)
+SUFFIXES = [(False, []), (True, []), (False, ["x"]), (False, ["a/b"]), (False, ["é"]), (False, ["0"]), (False, ["~", ""]), (False, ["x\ny", "z"]), (False, ["x%2Fy", "%7E"]), (False, ["a\n", "\tb"])]      # blanks at the very ends of the suffix are stripped by the parser (documented leniency, outside the property)
 MALFORMED = ["", "abc", "-1", "+1", "00", "01/a", "0+0", "0-0", "0+01", "0+", "0-", "0+/a", "1 #", " 1", "1#x", "0##", "0a",
              "0/a ", "0 /a", "1" * 30, "0+" + "1" * 25, "１", "0+１", "0-1#", "2-12/x/y", "0\\u0023", "0/a\\", "1" * 4301, "0+" + "2" * 4301, "0\n", "0\n/a", "1\n#", "0#\n", "0+1\n", "\n0", "0/a\n"]
 
